@@ -487,7 +487,9 @@ public:
     if (graphidToE_.size() < newGraphEdge + 1)
       graphidToE_.resize(newGraphEdge + 1);
     graphidToE_.at(newGraphEdge) = edgeObject;
-    EToGraphid_[edgeObject] = newGraphEdge;
+    // an edge without object is not a defined edge of the observer
+    if (edgeObject != 00)
+      EToGraphid_[edgeObject] = newGraphEdge;
   }
 
 
